@@ -262,10 +262,9 @@ HEADER = ("From Coq Require Import ZArith List. Import ListNotations. Open Scope
 def coq_expr(c, out):
     """Expression whose value says whether the model reproduces the implementation's output."""
     if c["k"] == "machine":
-        flat = out[1] if out[0] == "ok" else []
         eth = [v for e in (out[2] if out[0] == "ok" else []) for v in e]
-        return ("(first_diff (machine_outputs %s %s %s %s) %s 0, first_diff (pairs_flat (spinn5_eth_coords %s %s %s %s)) %s 0)"
-                % (zlit(c["w"]), zlit(c["h"]), zlit(c["rx"]), zlit(c["ry"]), vlist(zlit(v) for v in flat),
+        return ("(digest (machine_outputs %s %s %s %s), first_diff (pairs_flat (spinn5_eth_coords %s %s %s %s)) %s 0)"
+                % (zlit(c["w"]), zlit(c["h"]), zlit(c["rx"]), zlit(c["ry"]),
                    zlit(c["w"]), zlit(c["h"]), zlit(c["rx"]), zlit(c["ry"]), vlist(zlit(v) for v in eth)))
     if c["k"] == "dims":
         return "standard_system_dimensions %s" % zlit(c["n"])
@@ -274,9 +273,21 @@ def coq_expr(c, out):
     return "%s %s" % (fn, " ".join(zlit(a) for a in c["args"]))
 
 
+M61 = 2 ** 61 - 1
+
+
+def digest(vals):
+    """The same running digest as Model/Board.v `digest` (the per-chip outputs of a machine are compared
+    through it; on a mismatch the position of the first difference is then computed on the full lists)."""
+    acc = 0
+    for v in vals:
+        acc = (acc * 1000003 + v + 7) % M61
+    return acc
+
+
 def canon_model(c, v):
     if c["k"] == "machine":
-        return ["same"] if v == (None, None) else ["differs-at", repr(v)]
+        return ["digest", v[0], "eth-list-differs-at", v[1]]
     if c["k"] == "point" and c["f"] == "eth":
         return ["ok", [list(p) for p in v]]
     if v[0] == "Ok":
@@ -293,7 +304,7 @@ def canon_model(c, v):
 
 def canon_impl(c, o):
     if c["k"] == "machine":
-        return ["same"] if o[0] == "ok" else [o[0]]
+        return ["digest", digest(o[1]), "eth-list-differs-at", None] if o[0] == "ok" else [o[0]]
     if o[0] == "other":
         return ["other"]
     return list(o[:2])
@@ -361,13 +372,18 @@ def run(chk, args):
     # model
     if chk.model_ok:
         try:
-            order = sorted((i for i in range(len(cases)) if cases[i].get("cls") != "dims-large"),
-                           key=lambda i: -cost(cases[i]))                       # balance the shards
-            shards = max(12, (len(order) + 399) // 400)
-            perm = [i for s in range(shards) for i in order[s::shards]]
-            per = (len(perm) + shards - 1) // shards
-            vals_p = chk.coq_eval(HEADER, [coq_expr(cases[i], outs[i]) for i in perm], shard=per)
-            vals = dict(zip(perm, vals_p))
+            vals = {}
+            mach = sorted((i for i in range(len(cases)) if cases[i]["k"] == "machine"), key=lambda i: -cost(cases[i]))
+            if mach:
+                shards = 24 if len(mach) >= 48 else 12                          # balance the shards by size
+                perm = [i for s_ in range(shards) for i in mach[s_::shards]]
+                per = (len(perm) + shards - 1) // shards
+                vals.update(zip(perm, chk.coq_eval(HEADER, [coq_expr(cases[i], outs[i]) for i in perm],
+                                                   shard=per, name="machines")))
+            rest = [i for i in range(len(cases)) if cases[i]["k"] != "machine" and cases[i].get("cls") != "dims-large"]
+            if rest:
+                vals.update(zip(rest, chk.coq_eval(HEADER, [coq_expr(cases[i], outs[i]) for i in rest],
+                                                   shard=max(400, (len(rest) + 23) // 24), name="calls")))
             n_bad = 0
             for i, (c, o) in enumerate(zip(cases, outs)):
                 if i not in vals:
@@ -377,8 +393,17 @@ def run(chk, args):
                 if m != p:
                     n_bad += 1
                     if n_bad <= 3:
-                        chk.disagree("%s: model %r, implementation %r" % (
-                            c["k"] + (":" + c["f"] if c["k"] == "point" else ""), m, p if c["k"] != "machine" else p),
+                        where = ""
+                        if c["k"] == "machine" and o[0] == "ok" and m[1] != p[1]:
+                            d = chk.coq_eval(HEADER, ["first_diff (machine_outputs %s %s %s %s) %s 0" % (
+                                zlit(c["w"]), zlit(c["h"]), zlit(c["rx"]), zlit(c["ry"]),
+                                vlist(zlit(v) for v in o[1]))], name="locate%d" % n_bad)[0]
+                            if isinstance(d, tuple):
+                                k = d[1]
+                                where = (" (first difference at chip (%d,%d), output %d of [eth_x, eth_y, board_x, "
+                                         "board_y, fpga link 0..5])" % (k // 10 // c["h"], k // 10 % c["h"], k % 10))
+                        chk.disagree("%s: model %r, implementation %r%s" % (
+                            c["k"] + (":" + c["f"] if c["k"] == "point" else ""), m, p, where),
                             dict(case=c, observed=o if c["k"] != "machine" else [o[0]]))
             if not n_bad:
                 chk.oblige("correspondence:board-geometry (%d cases: whole machines compared chip by chip, single "
